@@ -15,7 +15,7 @@ import (
 var simKinds = map[string][]string{
 	"C01": {"knowledge-missing", "flush-storm", "log-advanced-without-delivery", "retry-gave-up", "harness-or-api-error"},
 	"C02": {"silenced-alert-notified", "api-silence-status", "harness-or-api-error"},
-	"C03": {"inhibited-alert-notified", "api-inhibit-status", "harness-or-api-error"},
+	"C03": {"inhibited-alert-notified", "api-inhibit-status", "api-alerts-filter", "harness-or-api-error"},
 	"C04": {"notification-from-replaced-dispatcher", "unjustified-notification", "first-notification-without-firing", "resolved-only-after-resolved-only", "repeat-late", "harness-or-api-error"},
 	"C05": {"resolved-sent-without-send-resolved", "resolved-before-end", "resolved-not-true", "firing-not-true", "resolved-not-reported", "knowledge-missing", "api-groups", "harness-or-api-error"},
 	"C06": {"notification-from-replaced-dispatcher", "foreign-alert", "group-labels", "wrong-receiver", "missing-alert-in-notification", "duplicate-alert-in-notification", "group-key", "api-groups", "harness-or-api-error"},
